@@ -99,7 +99,7 @@ impl Expr {
 
     pub fn get_bit_index(&self, constants: &dyn Context) -> Result<u8, ExprRunError> {
         let value = self.run(constants)?;
-        if value > 7 {
+        if value < 0 || value > 7 {
             Err(ExprRunError::ResultDoesntFit(format!(
                 "{} > 7 This is invalid because the value needs to index bits in a byte.",
                 value
